@@ -467,8 +467,10 @@ func runC04Full(c *Ctx) {
 	checkConflictPlumbing(c, p, "R04.2")
 	checkHandleConflicts(c, p, "R04.3")
 	checkExitCodes(c, p, "R04.4")
+	checkItemIdentity(c, p, "R04.6")
 	checkFirstSteps(c, p, "R04.5")
 	checkLR1Steps(c, p, "R04.5")
+	checkItemSetOps(c, p, "R04.5")
 	// accept/reduce conflicts are refused in both modes: the resolution panics
 	for _, pr := range [][2]string{{"Accept", "Reduce"}, {"Reduce", "Accept"}, {"Accept", "Shift"}, {"Shift", "Accept"}} {
 		got, _ := resolveOutcome(p, pr[0], pr[1], 3, 7)
